@@ -366,18 +366,27 @@ def run(ctx, R):
 def pstr_utf8_window(F, R, prefix):
     # packed strings are compared byte-wise up to the first difference and then as code points: the
     # decoding window around the differing byte must span a whole UTF-8 sequence (3 back, 4 forward)
+    import os
+    from .core import REPO
     cps = F.find("machine::heap::compare_pstr_slices")
     ch_ = F.hir(cps)
-    backs = [int(a["lit"]["int"]) for x in walk(ch_["body"]) if x["k"] == "MethodCall" and x["name"] == "saturating_sub" for a in x["args"] if a["k"] == "Lit" and "int" in a["lit"]]
+
+    def value(e):
+        """integer value of a literal or of a named constant"""
+        if e["k"] == "Lit" and "int" in e["lit"]:
+            return int(e["lit"]["int"])
+        if e["k"] == "Path" and str(e.get("val", "")).isdigit():
+            return int(e["val"])       # a named constant: the driver records its evaluated value
+        return None
+    backs = [v for x in walk(ch_["body"]) if x["k"] == "MethodCall" and x["name"] == "saturating_sub" for v in [value(a) for a in x["args"]] if v is not None]
     fwds = []
     for x in walk(ch_["body"]):
         if x["k"] == "Struct" and (res_name(x) or "").endswith("ops::Range"):
             end = dict(x["fields"]).get("end")
             if end is not None:
-                fwds += [int(y["b"]["lit"]["int"]) for y in walk(end) if y["k"] == "Binary" and y["op"] == "Add" and y["b"]["k"] == "Lit" and "int" in y["b"]["lit"]]
+                fwds += [v for y in walk(end) if y["k"] == "Binary" and y["op"] == "Add" for v in [value(y["b"])] if v is not None]
     if not backs or not fwds:
         raise AnchorLost("compare_pstr_slices: decoding window not recognised (backs %s, forwards %s)" % (backs, fwds))
     R.ob("%s:pstr-compare:utf8-window" % prefix, min(backs) >= 3 and min(fwds) >= 4,
          "the window decoded around the first differing byte reaches %s bytes back and %s bytes forward; a UTF-8 sequence has up to 4 bytes, so at least "
          "3 back and 4 forward are needed or a 4-byte character is truncated and mis-ordered" % (backs, fwds), F.where(cps))
-
